@@ -6,6 +6,7 @@ import (
 	"os"
 	"strings"
 	"sync"
+	"sync/atomic"
 
 	protoMetricsV1 "github.com/lindb/common/proto/gen/v1/linmetrics"
 
@@ -23,11 +24,18 @@ import (
 type hookIC struct {
 	world  *imgfs.World
 	before func(label string)
+	// sample > 1: only about every sample-th operation is followed by an image (free running histories: less
+	// serialisation, the goroutines of the node interleave more freely)
+	sample int64
+	n      atomic.Int64
 }
 
 func (h *hookIC) Do(label string, op func() error) error {
 	if b := h.before; b != nil {
 		b(label)
+	}
+	if h.sample > 1 && h.n.Add(1)%h.sample != 0 {
+		return h.world.DoMaybe(label, func() (bool, error) { return false, op() })
 	}
 	if strings.HasPrefix(label, "write ") {
 		// a write into lindb's buffered writer: it reaches the file system only when the buffer runs over; the state
@@ -212,4 +220,3 @@ func sortStrings(s []string) {
 		}
 	}
 }
-
